@@ -208,6 +208,8 @@ pub struct Node {
     pub sync_requests_at_running: Option<usize>,
     /// connection status after the first tick in which some player was flagged disconnected
     pub cs_at_first_disconnect: Option<Vec<(bool, i32)>>,
+    /// local handles whose input for this tick was already added by a scripted action
+    pub inputs_already_added: Vec<usize>,
     pub fin: Final,
 }
 
@@ -309,6 +311,7 @@ fn new_node(idx: usize, addr: Addr, is_spec: bool, host: Option<usize>, locals: 
         last_save_frame: -1,
         sync_requests_at_running: None,
         cs_at_first_disconnect: None,
+        inputs_already_added: vec![],
         fin: Final::default(),
     }
 }
@@ -566,8 +569,13 @@ impl<P: Pred> World<P> {
         if want_advance {
             let cf = sess.current_frame();
             let mut vals = vec![];
+            let already = std::mem::take(&mut core.nodes[ni].inputs_already_added);
             for &h in &core.nodes[ni].locals.clone() {
                 let v = input_value(core.scn.seed, h, cf, core.scn.sticky);
+                if already.contains(&h) {
+                    vals.push((h, v));
+                    continue;
+                }
                 if let Err(e) = sess.add_local_input(h, v) {
                     let d = format!("add_local_input({h}) for a local player failed: {e:?}");
                     core.viol("C16", addr, t, "valid call rejected", d);
@@ -889,6 +897,29 @@ impl<P: Pred> World<P> {
                         }
                         Err(e) => format!("{}(pending={pending},running={running})", err_name(&e)),
                     })
+                }
+                Misuse::AdvancePartialInputs => {
+                    let locals = core.nodes[ni].locals.clone();
+                    let running = sess.current_state() == SessionState::Running;
+                    let pending = sess.verif_sizes().pending_local_inputs;
+                    if locals.len() < 2 || !running || pending > 0 {
+                        Ok("skipped".to_string())
+                    } else {
+                        let cf = sess.current_frame();
+                        let seed = core.scn.seed;
+                        let sticky = core.scn.sticky;
+                        let r = guarded(|| {
+                            for &h in &locals[..locals.len() - 1] {
+                                sess.add_local_input(h, input_value(seed, h, cf, sticky)).expect("valid local input rejected");
+                            }
+                            sess.advance_frame()
+                        });
+                        core.nodes[ni].inputs_already_added = locals[..locals.len() - 1].to_vec();
+                        r.map(|r| match r {
+                            Ok(l) => format!("Ok[{}]", l.len()),
+                            Err(e) => err_name(&e),
+                        })
+                    }
                 }
                 Misuse::DisconnectHandle(h) => guarded(|| sess.disconnect_player(*h)).map(unit),
                 Misuse::SetDelayHandle(h, d) => guarded(|| sess.set_input_delay(*h, *d)).map(unit),
